@@ -36,6 +36,34 @@ fn rand_topic(rng: &mut Rng) -> TopicName {
     TopicName::_create_unchecked(&rand_string(rng, 20), &rand_string(rng, 20))
 }
 
+/// every part of every frame kind can be large, not only message bodies: one operation path of hundreds of KB, or
+/// thousands of short ones (registrations are bounded by the frame limit like everything else)
+fn rand_ops_sized(rng: &mut Rng, small: bool) -> Vec<Operation> {
+    if !small && rng.below(40) == 0 {
+        return match rng.below(3) {
+            0 => vec![Operation::Map("m".repeat(rng.range(60_000, 900_000) as usize))],
+            1 => (0..rng.range(1200, 4000)).map(|i| if i % 2 == 0 { Operation::Map(format!("modules/step-{:05}/transform.wasm", i)) } else { Operation::Filter(format!("modules/step-{:05}/filter.wasm", i)) }).collect(),
+            _ => vec![Operation::Filter("f".repeat(65_500 + rng.below(80) as usize))],
+        };
+    }
+    rand_ops(rng)
+}
+
+fn rand_headers_sized(rng: &mut Rng, small: bool) -> Option<HashMap<String, String>> {
+    if !small && rng.below(40) == 0 {
+        let mut h = HashMap::new();
+        if rng.pct(50) {
+            h.insert("big".to_string(), "v".repeat(rng.range(60_000, 700_000) as usize));
+        } else {
+            for i in 0..rng.range(1000, 5000) {
+                h.insert(format!("header-{:05}", i), format!("value-{}", i));
+            }
+        }
+        return Some(h);
+    }
+    rand_headers(rng)
+}
+
 fn rand_ops(rng: &mut Rng) -> Vec<Operation> {
     let n = rng.below(4);
     (0..n)
@@ -92,13 +120,13 @@ pub fn rand_frame(rng: &mut Rng, small: bool) -> Frame {
         }
     };
     match rng.below(8) {
-        0 => Frame::RegisterPublisher(PublisherPayload { topic: rand_topic(rng), retention_policy: rng.next_u64() >> rng.below(64), operations: rand_ops(rng) }),
-        1 => Frame::RegisterSubscriber(SubscriberPayload { topic: rand_topic(rng), retention_policy: rng.next_u64() >> rng.below(64), operations: rand_ops(rng) }),
+        0 => Frame::RegisterPublisher(PublisherPayload { topic: rand_topic(rng), retention_policy: rng.next_u64() >> rng.below(64), operations: rand_ops_sized(rng, small) }),
+        1 => Frame::RegisterSubscriber(SubscriberPayload { topic: rand_topic(rng), retention_policy: rng.next_u64() >> rng.below(64), operations: rand_ops_sized(rng, small) }),
         2 => Frame::RegisterReplier(ReplierPayload { topic: rand_topic(rng) }),
         3 => Frame::RegisterRequestor(RequestorPayload { topic: rand_topic(rng) }),
         4 => {
             let n = size(rng);
-            Frame::Message(MessagePayload { headers: rand_headers(rng), message: payload(rng, n) })
+            Frame::Message(MessagePayload { headers: rand_headers_sized(rng, small), message: payload(rng, n) })
         }
         5 => {
             let n = size(rng);
@@ -545,6 +573,50 @@ pub fn run(rep: &mut StageReport, tier: &str, seed: u64) {
         }
     }
     rep.count("frame_streams", n_streams as u64);
+    // ---- (2b) frames at the size limit, cut a few bytes before their end and inside their header -------------
+    if !miri {
+        let mut near_limit_chunkings = 0u64;
+        for kind in 0u8..4 {
+            for back in 0usize..=9 {
+                let target = LIMIT - back;
+                let Some(big) = frame_with_len(&mut rng, kind, target) else { continue };
+                let frames = vec![rand_frame(&mut rng, true), big, rand_frame(&mut rng, true)];
+                let mut stream = BytesMut::new();
+                let mut bounds = vec![];
+                let mut ok = true;
+                for f in &frames {
+                    if MessageCodec.encode(f.clone(), &mut stream).is_err() {
+                        ok = false;
+                    }
+                    bounds.push(stream.len());
+                }
+                if !ok {
+                    continue;
+                }
+                let stream = stream.to_vec();
+                let (start_big, end_big) = (bounds[0], bounds[1]);
+                let mut cut_sets: Vec<Vec<usize>> = vec![];
+                for k in 1..=12usize {
+                    cut_sets.push(vec![end_big - k]);
+                    cut_sets.push(vec![start_big + k.min(10), end_big - k]);
+                }
+                cut_sets.push(vec![start_big + 9, start_big + 9 + LIMIT / 2, end_big - 3, end_big - 1]);
+                for cuts in cut_sets.iter() {
+                    rep.evaluations += 1;
+                    near_limit_chunkings += 1;
+                    match catch_unwind(AssertUnwindSafe(|| decode_chunked(&stream, cuts))) {
+                        Err(_) => report(rep, Viol("panic/chunked-decode".into(), format!("decoder panicked on a stream holding a frame with a {}-byte payload (limit − {}), delivered in pieces cut at {:?} (the big frame spans {}..{})", target, back, cuts, start_big, end_big)), (kind as u64) << 8 | back as u64, json!({"cuts": cuts, "payload_len": target})),
+                        Ok(Ok(got)) if got == frames => {
+                            rep.distinct.insert(crate::common::mix(0x2b00 + kind as u64 * 16 + back as u64, crate::common::fnv(&cuts.iter().flat_map(|c| c.to_le_bytes()).collect::<Vec<u8>>())));
+                        }
+                        Ok(Ok(got)) => report(rep, Viol("reassembly-mismatch".into(), format!("3 frames sent (the middle one with a {}-byte payload), {} decoded / different content under chunking {:?}", target, got.len(), cuts)), back as u64, json!({"cuts": cuts})),
+                        Ok(Err(e)) => report(rep, Viol("reassembly-error".into(), format!("frame with a {}-byte payload (limit − {}): error {} under chunking {:?}", target, back, e, cuts)), back as u64, json!({"cuts": cuts})),
+                    }
+                }
+            }
+        }
+        rep.count("near_limit_chunkings", near_limit_chunkings);
+    }
     rep.count("chunkings", chunkings);
 
     // ---- (5) batches ---------------------------------------------------------------------------------
